@@ -147,6 +147,18 @@ def decoy_after(rng, build, p=0.3):
         return None
 
 
+def spell_features(rng, feats):
+    """The same feature set, spelled the way callers may spell it: strings or wishbone.Feature members (or a mix), in a
+    set, frozenset, list or tuple. Every spelling denotes the same signature."""
+    from amaranth_soc.wishbone import Feature
+    mode = rng.choice(["str", "str", "enum", "enum", "mix"])
+    items = []
+    for f in sorted(f if isinstance(f, str) else f.value for f in feats):
+        as_enum = mode == "enum" or (mode == "mix" and rng.random() < 0.5)
+        items.append(Feature(f) if as_enum else f)
+    return rng.choice([set, frozenset, list, tuple])(items)
+
+
 def bits(rng, width):
     return rng.getrandbits(width) if width > 0 else 0
 
